@@ -768,7 +768,22 @@ class Interp:
         if e["adt"].endswith("range::Range"):
             f = {x["name"]: self.eval(x["e"], env) for x in e["fields"]}
             return self.make_range(f["start"], f["end"])
-        fields = {x["name"]: self.eval(x["e"], env) for x in e["fields"]}
+        fields = {}
+        for x in e["fields"]:
+            try:
+                fields[x["name"]] = self.eval(x["e"], env)
+            except ControlUndecided:
+                raise
+            except Undecided as u:
+                # one field outside the model does not make its siblings unknown: it alone becomes a named unknown (whatever its
+                # expression may have modified on the way is havocked, as for a statement)
+                if len(e["fields"]) < 2:
+                    raise
+                self.note_undecided(u)
+                for (vid, vname, vty) in mutated_locals({"k": "expr", "e": x["e"]}):
+                    if env.lookup(vid) is not None:
+                        env.set(vid, opaque_by_type(vty, vname, self.types))
+                fields[x["name"]] = opaque_by_type(x["e"].get("ty") or "", "%s.%s" % (name, x["name"]), self.types)
         if "base" in e:
             b = self.eval(e["base"], env)
             if isinstance(b, Struct):
